@@ -137,7 +137,53 @@ func (f *ordFn) loopRole(n ast.Node, body *ast.BlockStmt) string {
 				return true
 			})
 			if fills {
-				return "group-first:RefRevIdx"
+				// the assumption (members of a group have equal normalised paths) holds only while the grouping
+				// key IS the normalised path: the result of the normaliser applied to the loop's own $ref, unchanged
+				keyOK := true
+				ast.Inspect(body, func(m ast.Node) bool {
+					as, ok := m.(*ast.AssignStmt)
+					if !ok {
+						return true
+					}
+					for _, l := range as.Lhs {
+						ix, ok := core.Unparen(l).(*ast.IndexExpr)
+						if !ok {
+							continue
+						}
+						if lt := f.info.TypeOf(ix.X); lt == nil || !core.IsMap(lt) {
+							continue
+						}
+						k := core.Unparen(ix.Index)
+						if o := core.ObjOf(f.info, k); o != nil {
+							if defs := f.e.c.P.Locals(f.fi).Defs[o]; len(defs) == 1 && defs[0].Kind == core.DefAssign {
+								k = core.Unparen(defs[0].Expr)
+							}
+						}
+						call, isCall := k.(*ast.CallExpr)
+						if !isCall {
+							keyOK = false
+							continue
+						}
+						callee := f.e.c.P.StaticCallee(f.fi, call)
+						if callee == nil || callee.Pkg() == nil || !strings.HasSuffix(callee.Pkg().Path(), "/normalize") {
+							keyOK = false
+							continue
+						}
+						usesLoopRef := false
+						for _, a := range call.Args {
+							if o := core.ObjOf(f.info, a); o != nil && rs.Value != nil && o == core.ObjOf(f.info, rs.Value) {
+								usesLoopRef = true
+							}
+						}
+						if !usesLoopRef {
+							keyOK = false
+						}
+					}
+					return true
+				})
+				if keyOK {
+					return "group-first:RefRevIdx"
+				}
 			}
 		}
 	}
@@ -241,6 +287,7 @@ func ordRules(c *Ctx) {
 	for k := range e.viol {
 		delete(e.hold, k)
 	}
+	e.totalOrders(reach)
 	emit(e.hold, core.Holds)
 	emit(e.exempt, core.Exempt)
 	emit(e.viol, core.Violated)
@@ -970,4 +1017,276 @@ func (f *ordFn) feedsLog(call *ast.CallExpr, pm core.Parents) bool {
 		n = p
 	}
 	return false
+}
+
+// totalOrders (ORD-TOTAL): sorting is what turns a slice filled in map order into a deterministic sequence, and
+// sort.Sort is not stable: that only works when the comparator separates any two distinct elements. The elements
+// sorted below Flatten are the keys of maps (or records carrying such a key), so the comparator must contain a
+// strict comparison of the elements themselves, or of the same string field of both, taken raw — a comparison
+// through a function (strings.ToLower, len, …) or on a non-identifying field alone leaves ties, whose order
+// depends on the map iteration that filled the slice.
+func (e *ordEngine) totalOrders(reach []*core.FuncInfo) {
+	c := e.c
+	inReach := map[*core.FuncInfo]bool{}
+	for _, fi := range reach {
+		inReach[fi] = true
+	}
+	n := 0
+	check := func(owner string, fi *core.FuncInfo, body ast.Node, coll types.Object, pi, pj types.Object, pos token.Pos) {
+		info := c.info(fi)
+		// element expression: coll[i] or coll[i].F (string)
+		elem := func(x ast.Expr) (idx types.Object, field string, ok bool) {
+			x = core.Unparen(x)
+			if sel, isSel := x.(*ast.SelectorExpr); isSel {
+				if fv := core.FieldOf(info, sel); fv != nil {
+					field = fv.Name()
+					x = core.Unparen(sel.X)
+				} else {
+					return nil, "", false
+				}
+			}
+			// a, b := coll[i], coll[j]
+			for hops := 0; hops < 3; hops++ {
+				o := core.ObjOf(info, x)
+				if _, isID := x.(*ast.Ident); !isID || o == nil {
+					break
+				}
+				defs := c.P.Locals(fi).Defs[o]
+				if len(defs) != 1 || defs[0].Kind != core.DefAssign {
+					break
+				}
+				x = core.Unparen(defs[0].Expr)
+				if sel, isSel := x.(*ast.SelectorExpr); isSel && field == "" {
+					if fv := core.FieldOf(info, sel); fv != nil {
+						field = fv.Name()
+						x = core.Unparen(sel.X)
+					}
+				}
+			}
+			ix, isIx := x.(*ast.IndexExpr)
+			if !isIx || core.ObjOf(info, ix.X) != coll {
+				return nil, "", false
+			}
+			io := core.ObjOf(info, ix.Index)
+			if io != pi && io != pj {
+				return nil, "", false
+			}
+			return io, field, true
+		}
+		raw := false
+		rawFields := map[string]bool{}
+		var seen []string
+		ast.Inspect(body, func(nd ast.Node) bool {
+			be, ok := nd.(*ast.BinaryExpr)
+			if !ok || be.Op != token.LSS && be.Op != token.GTR {
+				return true
+			}
+			seen = append(seen, exprStr(be))
+			// strings.Compare(a, b) < 0
+			if cc, isCall := core.Unparen(be.X).(*ast.CallExpr); isCall && len(cc.Args) == 2 {
+				if cal := c.P.CalleeAny(fi, cc); cal != nil && cal.FullName() == "strings.Compare" {
+					ai, af, aok := elem(cc.Args[0])
+					bi, bf, bok := elem(cc.Args[1])
+					if aok && bok && ai != bi && af == bf {
+						raw = true
+						rawFields[af] = true
+					}
+				}
+			}
+			ai, af, aok := elem(be.X)
+			bi, bf, bok := elem(be.Y)
+			if aok && bok && ai != bi && af == bf && core.IsString(info.TypeOf(be.X)) {
+				raw = true
+				rawFields[af] = true
+			}
+			return true
+		})
+		n++
+		sort.Strings(seen)
+		// the fields compared must, together, carry every key of the map iteration that produced the elements
+		if raw && !rawFields[""] {
+			if missing := e.uncoveredKeys(coll.Type(), rawFields); missing != "" {
+				e.c.S.Violate("C07", "ORD-TOTAL", owner, c.P.Pos(pos),
+					"the comparator ("+strings.Join(seen, "; ")+") compares fields that do not identify an element: "+missing+" — elements that differ there tie, and sort.Sort leaves tied elements in the order the map iteration delivered them, so what is derived from that order differs between runs")
+				return
+			}
+		}
+		e.c.S.Decide(raw, "C07", "ORD-TOTAL", owner, c.P.Pos(pos),
+			"the comparator ends in a raw string comparison of the two elements (or of the same string field of both): distinct keys never tie",
+			"the comparator ("+strings.Join(seen, "; ")+") contains no raw string comparison of the two elements: elements that differ can compare equal, and sort.Sort leaves tied elements in the order the map iteration delivered them — the names derived from that order differ between runs")
+	}
+	for _, fi := range c.P.SortedFuncs() {
+		// Less methods of sortable collections
+		sig := fi.Obj.Type().(*types.Signature)
+		if fi.Obj.Name() == "Less" && sig.Recv() != nil && sig.Params().Len() == 2 && sig.Results().Len() == 1 && core.IsBool(sig.Results().At(0).Type()) {
+			used := false
+			for _, cs := range c.P.CG().In[fi.Obj] {
+				if inReach[cs.Caller] {
+					used = true
+				}
+			}
+			// sort.Sort calls Less through the interface: used when a value of the receiver type is sorted below Flatten
+			for _, g := range reach {
+				ginfo := c.info(g)
+				for _, call := range calls(g.Decl.Body) {
+					if cal := c.P.CalleeAny(g, call); cal != nil && strings.HasPrefix(cal.FullName(), "sort.") && len(call.Args) == 1 {
+						if t := ginfo.TypeOf(call.Args[0]); t != nil && types.Identical(core.Deref(t), core.Deref(sig.Recv().Type())) {
+							used = true
+						}
+					}
+				}
+			}
+			if !used || fi.Decl.Recv == nil || len(fi.Decl.Recv.List) != 1 || len(fi.Decl.Recv.List[0].Names) != 1 {
+				continue
+			}
+			info := c.info(fi)
+			recv := info.Defs[fi.Decl.Recv.List[0].Names[0]]
+			check(fi.QName(), fi, fi.Decl.Body, recv, sig.Params().At(0), sig.Params().At(1), fi.Decl.Pos())
+		}
+		if !inReach[fi] {
+			continue
+		}
+		// sort.Slice(x, func(i, j int) bool { … })
+		info := c.info(fi)
+		k := 0
+		for _, call := range calls(fi.Decl.Body) {
+			cal := c.P.CalleeAny(fi, call)
+			if cal == nil || cal.FullName() != "sort.Slice" && cal.FullName() != "sort.SliceStable" || len(call.Args) != 2 {
+				continue
+			}
+			lit, ok := core.Unparen(call.Args[1]).(*ast.FuncLit)
+			if !ok || lit.Type.Params == nil {
+				continue
+			}
+			var ps []types.Object
+			for _, f := range lit.Type.Params.List {
+				for _, nm := range f.Names {
+					ps = append(ps, info.Defs[nm])
+				}
+			}
+			coll := core.ObjOf(info, call.Args[0])
+			if len(ps) != 2 || coll == nil {
+				continue
+			}
+			k++
+			check(fmt.Sprintf("%s/sort.Slice#%d", fi.QName(), k), fi, lit.Body, coll, ps[0], ps[1], call.Pos())
+		}
+	}
+	if n < 3 {
+		c.S.Undecided("C07", "ORD-TOTAL", "floor", "-", fmt.Sprintf("only %d comparators found (confirmed by hand: 3)", n))
+	}
+}
+
+// uncoveredKeys: the elements of the sorted collection are records built inside map iterations; the string fields
+// the comparator compares raw must carry, injectively, every key variable of those iterations. Returns a
+// description of a construction site whose keys are not all carried ("" when every site is covered or none is found).
+func (e *ordEngine) uncoveredKeys(collT types.Type, fields map[string]bool) string {
+	c := e.c
+	sl, ok := collT.Underlying().(*types.Slice)
+	if !ok {
+		return ""
+	}
+	elemT := core.Deref(sl.Elem())
+	if _, isStruct := elemT.Underlying().(*types.Struct); !isStruct {
+		return ""
+	}
+	for _, fi := range c.P.SortedFuncs() {
+		info := c.info(fi)
+		pm := c.parents(fi)
+		var problem string
+		ast.Inspect(fi.Decl.Body, func(n ast.Node) bool {
+			cl, ok := n.(*ast.CompositeLit)
+			if !ok || problem != "" {
+				return problem == ""
+			}
+			if t := info.TypeOf(cl); t == nil || !types.Identical(core.Deref(t), elemT) {
+				return true
+			}
+			// key variables of the enclosing map iterations
+			keys := map[types.Object]bool{}
+			for p := pm[cl]; p != nil; p = pm[p] {
+				if rs, ok := p.(*ast.RangeStmt); ok && core.IsMap(info.TypeOf(rs.X)) {
+					if id, ok := rs.Key.(*ast.Ident); ok && id.Name != "_" {
+						if o := info.Defs[id]; o != nil {
+							keys[o] = true
+						}
+					}
+				}
+			}
+			if len(keys) == 0 {
+				return true
+			}
+			carried := map[types.Object]bool{}
+			var walk func(x ast.Expr, depth int)
+			walk = func(x ast.Expr, depth int) {
+				if depth > 4 {
+					return
+				}
+				switch y := core.Unparen(x).(type) {
+				case *ast.Ident:
+					o := core.ObjOf(info, y)
+					if keys[o] {
+						carried[o] = true
+						return
+					}
+					if defs := c.P.Locals(fi).Defs[o]; len(defs) == 1 && defs[0].Kind == core.DefAssign {
+						walk(defs[0].Expr, depth+1)
+					}
+				case *ast.BinaryExpr:
+					if y.Op == token.ADD {
+						walk(y.X, depth+1)
+						walk(y.Y, depth+1)
+					}
+				case *ast.CallExpr:
+					if cal := c.P.CalleeAny(fi, y); cal != nil {
+						switch cal.FullName() {
+						case "path.Join", "github.com/go-openapi/jsonpointer.Escape", "strings.Join":
+							for _, a := range y.Args {
+								walk(a, depth+1)
+							}
+						}
+					}
+					if tv, ok := info.Types[y.Fun]; ok && tv.IsType() && len(y.Args) == 1 {
+						walk(y.Args[0], depth+1)
+					}
+				}
+			}
+			st := elemT.Underlying().(*types.Struct)
+			for i, el := range cl.Elts {
+				name := ""
+				val := el
+				if kv, ok := el.(*ast.KeyValueExpr); ok {
+					if id, ok := kv.Key.(*ast.Ident); ok {
+						name = id.Name
+					}
+					val = kv.Value
+				} else if i < st.NumFields() {
+					name = st.Field(i).Name()
+				}
+				if fields[name] {
+					walk(val, 0)
+				}
+			}
+			var missing []string
+			for k := range keys {
+				if !carried[k] {
+					missing = append(missing, k.Name())
+				}
+			}
+			if len(missing) > 0 {
+				sort.Strings(missing)
+				var fs []string
+				for f := range fields {
+					fs = append(fs, f)
+				}
+				sort.Strings(fs)
+				problem = fmt.Sprintf("the elements built at %s differ by the map key(s) %s, which the compared field(s) %s do not carry unchanged", c.P.Pos(cl.Pos()), strings.Join(missing, ", "), strings.Join(fs, ", "))
+			}
+			return true
+		})
+		if problem != "" {
+			return problem
+		}
+	}
+	return ""
 }
